@@ -12,7 +12,7 @@ Flag(ev, what, detail) == bad \cup {<<ev.t, ev.i, what, detail>>}
 LayoutOf(ev) == {Entry(ev.entries[k].kind, ev.entries[k].index, ev.entries[k].flag, ev.entries[k].file, ev.entries[k].meta) :
                    k \in 1..Len(ev.entries)}
 
-Init == l = 1 /\ bad = {} /\ cnt = [crashlayouts |-> 0, layouts |-> 0, recovered |-> 0, nonempty |-> 0, dirty |-> 0, fired |-> 0]
+Init == l = 1 /\ bad = {} /\ cnt = [crashlayouts |-> 0, layouts |-> 0, recovered |-> 0, notjudged |-> 0, nonempty |-> 0, dirty |-> 0, fired |-> 0]
 
 Next ==
   /\ l <= Len(Trace)
@@ -30,7 +30,7 @@ Next ==
             /\ cnt' = [cnt EXCEPT !.layouts = @ + 1]
        [] ev.ev = "Recovered" ->
             /\ bad' = IF ev.ok THEN bad ELSE Flag(ev, "Recovered", {"replica_older_than_recorded_snapshot"})
-            /\ cnt' = [cnt EXCEPT !.recovered = @ + 1]
+            /\ cnt' = [cnt EXCEPT !.recovered = @ + (IF ev.init THEN 1 ELSE 0), !.notjudged = @ + (IF ev.init THEN 0 ELSE 1)]
        [] ev.ev = "Round" ->
             /\ cnt' = [cnt EXCEPT !.fired = @ + (IF ev.fired THEN 1 ELSE 0)] /\ UNCHANGED bad
        [] OTHER -> UNCHANGED <<bad, cnt>>
